@@ -432,11 +432,28 @@ theorem Good.indexCheck_none (g : Good H s) {b : Nat} (hb : b ∈ bandIdsOf s) :
       simp [hti, countMismatch, hb']
 
 /-- Listing any version of a healthy archive reports nothing. -/
+theorem bandPresent_of_readable {s : Store} {b : Nat} (h : bandReadable s b = true) :
+    bandPresent s b = true := by
+  unfold bandReadable at h
+  unfold bandPresent
+  cases hg : s.get? (.bandHead b) with
+  | none => simp [hg] at h
+  | some v => cases v <;> simp [hg, FileVal.isDir] at h ⊢
+
+/-- In a healthy archive no version has lost its head: whatever holds a hunk has a readable head. -/
+theorem Good.headLost_false (g : Good H s) (c : Nat) : headLost s c = false := by
+  unfold headLost
+  cases hg : s.get? (.hunk c 0) with
+  | none => simp
+  | some v => simp [bandPresent_of_readable (g.heads c (bandDir_of_hunk g.dirsOk hg))]
+
+/-- Listing any version of a healthy archive reports nothing. -/
 theorem Good.listErrors_nil (g : Good H s) {b : Nat} (hb : b ∈ bandIdsOf s) : listErrors s b = [] := by
   apply C08.stitch_silent
-  intro x hx
-  have hxb := mem_chain_bandIds g.dirsOk hb hx
-  exact ⟨g.heads x hxb, g.indexCheck_none hxb, fun k hk => g.hunkError_none hxb hk⟩
+  · intro x hx
+    have hxb := mem_chain_bandIds g.dirsOk hb hx
+    exact ⟨g.heads x hxb, g.indexCheck_none hxb, fun k hk => g.hunkError_none hxb hk⟩
+  · exact fun c _ => g.headLost_false c
 
 theorem Good.headError_none (g : Good H s) {b : Nat} (hb : b ∈ bandIdsOf s) : headError s b = none := by
   have := ((bandReadable_iff s b).mp (g.heads b hb)).1
